@@ -6,6 +6,7 @@ import SamplyModel.Lemmas.ProfileNsym
 import SamplyModel.Lemmas.ProfileAddrFrame
 import SamplyModel.Lemmas.ProfileSymFrame
 import SamplyModel.Lemmas.ProfileStackDecode
+import SamplyModel.Lemmas.ProfileIdRule
 /-!
 # C03 — every serialized profile is internally consistent (no dangling index)
 
@@ -143,6 +144,16 @@ process, main flag); no helper of the model's serializer occurs in the statement
 theorem C03_identity (ops : List Op) (h : Accepted ops = true) (s : SerProfile)
     (hs : serialize (run ops) = some s) : identOk (run ops).view s = true :=
   identOk_of_inv _ (Inv.run ops h).1 (Inv.run ops h).2 s hs
+
+/-- **The pid / tid strings are the ones the caller expects** — for every call sequence, accepted or not: the
+pid of process handle `i` and the tid of thread handle `j` (`P.view` renders them with `idString`) are given
+by the caller-side rule `idSpec`: the numeric id, and as suffix the number of earlier uses of that id
+(`add_process` for pids; `add_thread` and `set_thread_tid` for tids; the last assignment of a thread counts).
+This is the rule the judge's reference (`expectedId`) applies to the op lines. -/
+theorem C03_id_rule (ops : List Op) :
+    (run ops).processes.map (·.pid) = (idSpec ops).pids ∧ (run ops).threads.map (·.tid) = (idSpec ops).tids := by
+  have h := idInv_run ops P.init {} ⟨rfl, rfl, fun _ => rfl, fun _ => rfl⟩
+  exact ⟨h.pids, h.tids⟩
 
 /-- the pid a counter was created with is the pid of its process at every later time (counters.rs keeps
 the pid string; `Process` has no pid setter) -/
@@ -526,6 +537,8 @@ example : Accepted C03_example = true := by decide
 set_option maxRecDepth 8192 in
 example : (run C03_example).threads.map (fun t => (t.frames.keys.length, t.stacks.prefixes.length, t.samples.length))
     = [(4, 4, 2), (1, 0, 0), (0, 0, 0)] := by decide
+set_option maxRecDepth 8192 in
+example : (idSpec C03_example).pids = [(7, 0), (7, 1)] ∧ (idSpec C03_example).tids = [(1, 0), (1, 2), (2, 0)] := by decide
 set_option maxRecDepth 8192 in
 example : (run C03_example).processes.map (·.pid) = [(7, 0), (7, 1)] ∧
     (run C03_example).threads.map (·.tid) = [(1, 0), (1, 2), (2, 0)] := by decide
